@@ -6,12 +6,19 @@ from pyvaporation.pervaporation import Pervaporation
 import gens
 
 
-def simple_membrane(m, P1, P2, T=333.15, Ea1=20000.0, Ea2=40000.0, name='oracle_membrane', units='kg/(m2*h*kPa)'):
-    return pv.Membrane(name=name, ideal_experiments=IdealExperiments(experiments=[
-        IdealExperiment(name='e1', temperature=T, component=m.first_component,
-                        permeance=pv.Permeance(value=P1, units=units), activation_energy=Ea1),
-        IdealExperiment(name='e2', temperature=T, component=m.second_component,
-                        permeance=pv.Permeance(value=P2, units=units), activation_energy=Ea2)]))
+def simple_membrane(m, P1, P2, T=333.15, Ea1=20000.0, Ea2=40000.0, name='oracle_membrane', units='kg/(m2*h*kPa)', extra=()):
+    """extra: further experiments (dT, f1, f2) per component at T + dT with permeances P * f — measured series are in
+    general not mutually Arrhenius-consistent, so which experiment is nearest matters"""
+    exps = [IdealExperiment(name='e1', temperature=T, component=m.first_component,
+                            permeance=pv.Permeance(value=P1, units=units), activation_energy=Ea1),
+            IdealExperiment(name='e2', temperature=T, component=m.second_component,
+                            permeance=pv.Permeance(value=P2, units=units), activation_energy=Ea2)]
+    for k, (dT, f1, f2) in enumerate(extra):
+        exps.append(IdealExperiment(name='x1_%d' % k, temperature=T + dT, component=m.first_component,
+                                    permeance=pv.Permeance(value=P1 * f1, units=units), activation_energy=Ea1))
+        exps.append(IdealExperiment(name='x2_%d' % k, temperature=T + dT, component=m.second_component,
+                                    permeance=pv.Permeance(value=P2 * f2, units=units), activation_energy=Ea2))
+    return pv.Membrane(name=name, ideal_experiments=IdealExperiments(experiments=exps))
 
 
 class EvalBudgetExceeded(BaseException):
@@ -50,6 +57,7 @@ def random_feed_state(rng):
     elif mode == 'press0':
         pp = 0.0
     prec = gens.loguniform(rng, 1e-8, 1e-3)
+    T, Tp, pp = gens.maybe_int(rng, T, 0.1), gens.maybe_int(rng, Tp, 0.1), gens.maybe_int(rng, pp, 0.2)
     return dict(m=m, ct=ct, T=T, x=x, basis=basis, P1=P1, P2=P2, mode=mode, Tp=Tp, pp=pp, prec=prec)
 
 
